@@ -23,7 +23,8 @@ ASSUMPTIONS = [
 ]
 SIZES = {"quick": 2500, "thorough": 12000}
 
-OBJ = [10, 11, 12, 13, 1000, 1001, "a", "b", "c", "dd", 2.5, (1, 2), (3,), "e"]
+OBJ = [10, 11, 12, 13, 1000, 1001, "a", "b", "c", "dd", 2.5, (1, 2), (3,), "e", None]
+_NO = object()   # "no fresh object/key available"
 KEYS = ["k0", "k1", "k2", "k3", "k4", "k5", "k6", "k7"]
 NOBJ = len(OBJ)
 NKEY = len(KEYS)
@@ -37,6 +38,7 @@ def _op_list():
         st.tuples(st.just("append"), _idx),
         st.tuples(st.just("insert"), _idx, _idx),
         st.tuples(st.just("extend"), st.lists(_idx, max_size=3)),
+        st.tuples(st.just("extend_iter"), st.lists(_idx, min_size=1, max_size=3)),
         st.tuples(st.just("popidx"), _idx),
         st.tuples(st.just("poplast")),
         st.tuples(st.just("remove"), _idx),
@@ -53,6 +55,7 @@ def _op_dict():
         st.tuples(st.just("setkey"), _idx, _idx, st.booleans()),
         st.tuples(st.just("update"), st.sampled_from(["map", "pairs", "kw"]),
                   st.lists(st.tuples(_idx, _idx, st.booleans()), max_size=3)),
+        st.tuples(st.just("update_permute"), _idx, _idx, st.sampled_from(["map", "pairs", "kw"])),
         st.tuples(st.just("popkey"), _idx),
         st.tuples(st.just("popidx"), _idx),
         st.tuples(st.just("poplast")),
@@ -74,6 +77,7 @@ def _case(draw):
         "level": draw(st.sampled_from(["class", "instance"])),
         "init": draw(st.lists(st.integers(0, NOBJ - 1), min_size=1, max_size=4, unique=True)),
         "watch": draw(st.booleans()),
+        "cos": draw(st.sampled_from([True, True, False])),
         "ops": [list(o) for o in ops],
     }
 
@@ -89,7 +93,7 @@ def _fresh(model, start):
         o = OBJ[(start + j) % NOBJ]
         if not any(o is u for u in used):
             return o
-    return None
+    return _NO
 
 
 def _freshkey(model, start):
@@ -98,7 +102,7 @@ def _freshkey(model, start):
         k = KEYS[(start + j) % NKEY]
         if k not in used:
             return k
-    return None
+    return _NO
 
 
 def execute(case):
@@ -106,6 +110,11 @@ def execute(case):
     decl, kind = case["decl"], case["kind"]
     islist = kind == "ListSelector"
     init = [OBJ[i] for i in case["init"]]
+    if init[0] is None:            # a None default would switch allow_None on: keep None out of slot 0
+        init = init[1:] + [None] if len(init) > 1 else [OBJ[0]]
+    cos = case.get("cos", True)
+    auto_added = False             # check_on_set=False: an assigned non-member was added automatically
+    after_permute = False
     if decl == "list":
         model = [(str(o), o) for o in init]
         objects = list(init)
@@ -114,7 +123,7 @@ def execute(case):
         objects = dict(model)
     ptype = param.ListSelector if islist else param.Selector
     default = [init[0]] if islist else init[0]
-    P = type("P", (param.Parameterized,), {"s": ptype(default=default, objects=objects)})
+    P = type("P", (param.Parameterized,), {"s": ptype(default=default, objects=objects, **({} if cos else {"check_on_set": False}))})
     inst = P()
     if case["level"] == "class":
         holder = P
@@ -135,6 +144,8 @@ def execute(case):
     val_after_mut = False
 
     def compare(tag):
+        if after_permute and "[after-permute]" not in tag:
+            tag = "[after-permute] " + tag
         p = par()
         want_objs = [o for _, o in model]
         got = list(p.objects)
@@ -145,9 +156,15 @@ def execute(case):
         except Exception as e:  # noqa: BLE001
             res.fail("C18.items", f"after {tag}: objects.items() raised {e!r}")
             items = None
-        if items is not None and items != model:
+        if auto_added and decl == "dict":
+            # the name under which an automatically added object is listed is unspecified: only require
+            # that the name mapping describes the same objects as the list view
+            if items is not None and [o for _, o in items] != want_objs:
+                res.fail("C18.names_objects", f"[auto-added-dict] after {tag}: objects.items()={items!r} does not "
+                                              f"describe the objects {want_objs!r}")
+        elif items is not None and items != model:
             res.fail("C18.items", f"after {tag}: objects.items()={items!r} model={model!r}")
-        if decl == "dict":
+        if decl == "dict" and not auto_added:
             if list(p.names.items()) != model and not (not model and not p.names):
                 res.fail("C18.names", f"after {tag}: names={dict(p.names)!r} model={model!r}")
         rng = p.get_range()
@@ -163,7 +180,7 @@ def execute(case):
             except ValueError as e:
                 res.fail("C18.member_rejected", f"after {tag}: member {o!r} rejected: {e}")
         non = _fresh(model, 0)
-        if non is not None:
+        if non is not _NO and cos:
             v = [non] if islist else non
             try:
                 setattr(target, "s", v)
@@ -175,7 +192,7 @@ def execute(case):
     compare("init")
     for step, op in enumerate(case["ops"]):
         name = op[0]
-        tag = f"op{step}:{op!r}"
+        tag = ("[after-permute] " if after_permute else "") + f"op{step}:{op!r}"
         nlog = len(log)
         mutated = True
         noclaim = False
@@ -183,20 +200,20 @@ def execute(case):
         objs = par().objects
         if name == "setidx":
             new = _fresh(model, op[2])
-            if not model or new is None:
+            if not model or new is _NO:
                 continue
             i = op[1] % len(model)
             objs[i] = new
             model[i] = (str(new), new)
         elif name == "append":
             new = _fresh(model, op[1])
-            if new is None:
+            if new is _NO:
                 continue
             objs.append(new)
             model.append((str(new), new))
         elif name == "insert":
             new = _fresh(model, op[2])
-            if new is None:
+            if new is _NO:
                 continue
             i = op[1] % (len(model) + 1)
             objs.insert(i, new)
@@ -205,13 +222,43 @@ def execute(case):
             news = []
             for s in op[1]:
                 n = _fresh(model + [(str(x), x) for x in news], s)
-                if n is not None:
+                if n is not _NO:
                     news.append(n)
             objs.extend(news)
             model.extend((str(n), n) for n in news)
             if not news:
                 noclaim = True  # an empty extend may or may not notify: no claim
                 res.dontcare += 1
+        elif name == "extend_iter":
+            news = []
+            for sx in op[1]:
+                n = _fresh(model + [(str(x), x) for x in news], sx)
+                if n is not _NO:
+                    news.append(n)
+            if not news:
+                continue
+            objs.extend(iter(news))      # any iterable is a legitimate argument of list.extend
+            model.extend((str(n), n) for n in news)
+        elif name == "update_permute":
+            if len(model) < 2:
+                continue
+            i = op[1] % len(model)
+            j = op[2] % len(model)
+            if i == j:
+                j = (i + 1) % len(model)
+            (ki, oi), (kj, oj) = model[i], model[j]
+            pairs = [(ki, oj), (kj, oi)]
+            if op[3] == "map":
+                objs.update(dict(pairs))
+            elif op[3] == "pairs":
+                objs.update(pairs)
+            else:
+                objs.update({}, **dict(pairs))
+            model[i], model[j] = (ki, oj), (kj, oi)
+            if not after_permute:
+                tag = "[after-permute] " + tag
+            after_permute = True
+            res.label("permute_existing")
         elif name == "popidx":
             if not model:
                 continue
@@ -268,7 +315,7 @@ def execute(case):
                 model[:] = list(d.items())
         elif name == "setkey":
             new = _fresh(model, op[2])
-            if new is None:
+            if new is _NO:
                 continue
             if op[3] and model:   # existing key, new object
                 i = op[1] % len(model)
@@ -277,7 +324,7 @@ def execute(case):
                 model[i] = (k, new)
             else:
                 k = _freshkey(model, op[1])
-                if k is None:
+                if k is _NO:
                     continue
                 objs[k] = new
                 model.append((k, new))
@@ -286,7 +333,7 @@ def execute(case):
             shadow = list(model)
             for ki, oi, existing in op[2]:
                 new = _fresh(shadow, oi)
-                if new is None:
+                if new is _NO:
                     continue
                 if existing and shadow:
                     i = ki % len(shadow)
@@ -294,7 +341,7 @@ def execute(case):
                     shadow[i] = (k, new)
                 else:
                     k = _freshkey(shadow, ki)
-                    if k is None:
+                    if k is _NO:
                         continue
                     shadow.append((k, new))
                 pairs.append((k, new))
@@ -323,15 +370,22 @@ def execute(case):
                         res.fail("C18.member_rejected", f"{tag}: value not installed")
             else:
                 non = _fresh(model, op[1])
-                if non is None:
+                if non is _NO:
                     continue
                 v = [non] if islist else non
-                try:
+                if not cos:
+                    # check_on_set=False: a non-member is accepted and becomes a member
                     setattr(target, "s", v)
-                except ValueError:
-                    pass
+                    model.append((str(non), non))
+                    auto_added = True
+                    res.label("auto_added")
                 else:
-                    res.fail("C18.nonmember_accepted", f"{tag}: non-member {non!r} accepted")
+                    try:
+                        setattr(target, "s", v)
+                    except ValueError:
+                        pass
+                    else:
+                        res.fail("C18.nonmember_accepted", f"{tag}: non-member {non!r} accepted")
             if nmut:
                 val_after_mut = True
         else:
@@ -349,12 +403,19 @@ def execute(case):
                 ev = log[-1][0]
                 want_new = [o for _, o in model]
                 got_new = list(ev.new.values()) if isinstance(ev.new, dict) else list(ev.new)
-                if got_new != want_new:
+                if auto_added and decl == "dict":
+                    res.dontcare += 1
+                elif got_new != want_new:
                     res.fail("C18.watcher_event_new", f"{tag}: event.new={ev.new!r} model={want_new!r}")
         elif case["watch"] and len(log) != nlog:
             res.fail("C18.watcher_once", f"{tag}: objects watcher called for a non-mutation")
         nlog = len(log)
         compare(tag)
+        if after_permute or (auto_added and decl == "dict"):
+            # inside the region of a known finding (KF-C18-2 / KF-C18-4): the immediate comparison above
+            # is reported (and attributed to the finding); the history ends here
+            res.label("ended_in_known_region")
+            break
         probe(tag)
         if len(log) != nlog:
             res.fail("C18.watcher_once", f"{tag}: objects watcher called by reads/value assignments")
@@ -364,3 +425,18 @@ def execute(case):
     if removal and decl == "dict":
         res.label("dict_removal")
     return res
+
+
+def _region_permute(case, v):
+    """KF-C18-2: everything observed at or after an update() that hands an existing object to another
+    existing key (transient duplicate) - the list order then no longer follows the keys."""
+    return "[after-permute]" in v.detail
+
+
+def _region_autoadd(case, v):
+    """KF-C18-4: dict-declared, check_on_set=False: an assigned non-member is appended to the list
+    only, the name mapping never lists it."""
+    return v.clause == "C18.names_objects" and "[auto-added-dict]" in v.detail
+
+
+REGIONS = {"update_permutes_existing": _region_permute, "dict_autoadd_not_named": _region_autoadd}
